@@ -6,6 +6,7 @@ package larking
 
 import (
 	"net/http"
+	"unicode/utf8"
 
 	"github.com/gobwas/ws"
 	"google.golang.org/grpc/codes"
@@ -64,4 +65,19 @@ func WSStatusCode(c codes.Code) ws.StatusCode {
 		return ws.StatusInternalServerError
 	}
 	return codeToWSStatus[c]
+}
+
+// wsCloseReason cuts a status message down to what a close frame can carry
+// (the control frame payload limit less the 2 byte close code) without
+// splitting a UTF-8 sequence.
+func wsCloseReason(msg string) string {
+	const max = ws.MaxControlFramePayloadSize - 2
+	if len(msg) <= max {
+		return msg
+	}
+	n := max
+	for n > 0 && !utf8.RuneStart(msg[n]) {
+		n--
+	}
+	return msg[:n]
 }
